@@ -100,6 +100,9 @@ def judge_text(run, spec, stage, L, text, inv, lit, lit_nodef, found):
                                first_difference=d,
                                note="the declarations recounted in the real text differ from those of the program "
                                     "(expected: from the IR; scanned: from the text)"), signature=sig)
+    # Java: the two deviations from "printed iff the program carries it" that DESIGN lists for the Java translator
+    if L == "java":
+        java_annotation_legs(run, spec, stage, text, inv, found)
     # S2
     strs, chrs = cs.text_literals(toks)
     if L == "java":
@@ -125,6 +128,38 @@ def judge_text(run, spec, stage, L, text, inv, lit, lit_nodef, found):
                                    first_difference={"index": k, "expected": e[k:k + 2], "in_text": g[k:k + 2],
                                                      "n_expected": len(e), "n_in_text": len(g)}), signature=sig)
     return bad
+
+
+def java_annotation_legs(run, spec, stage, text, inv, found):
+    """JavaTranslator.visit_var_decl prints `inferred_type` whether or not the variable carries a declared type (an
+    erased local type is still printed), and visit_func_call never prints explicit method type arguments: both
+    contradict "printed if and only if the program carries it"; recorded as known findings, re-observed here"""
+    import re
+    bare = [inv[i][1] for i in range(len(inv)) if inv[i][0] == "var"
+            and not (i + 1 < len(inv) and inv[i + 1][0] == "varannot")]
+    if bare:
+        run.cov["java_unannotated_variables"] = run.cov.get("java_unannotated_variables", 0) + len(bare)
+        untyped = sum(1 for nm in bare if re.search(r"\bvar\s+(Main\.)?%s\b" % re.escape(nm), text))
+        typed = sum(1 for nm in bare if re.search(r"[\w>\]]\s+(Main\.)?%s = " % re.escape(nm), text))
+        run.cov["java_unannotated_variables_printed_with_type"] = \
+            run.cov.get("java_unannotated_variables_printed_with_type", 0) + typed
+        if typed and not untyped:
+            run.violation(dict(replay_of(spec, stage), kind="failing-input", translator="java",
+                               leg="annotation iff (variables)", variables=bare[:5],
+                               note="variables without a declared type (var_type is None) are printed with a type"),
+                          signature="java:variable-without-declared-type-printed-with-type")
+    targs = [nm for tag, nm, _ in inv if tag == "targs"]
+    if targs:
+        run.cov["java_explicit_call_type_arguments"] = run.cov.get("java_explicit_call_type_arguments", 0) + len(targs)
+        printed = sum(1 for nm in targs if re.search(r"<[^;(){}]*>\s*%s\(" % re.escape(nm), text))
+        run.cov["java_explicit_call_type_arguments_printed"] = \
+            run.cov.get("java_explicit_call_type_arguments_printed", 0) + printed
+        if not printed:
+            run.violation(dict(replay_of(spec, stage), kind="failing-input", translator="java",
+                               leg="annotation iff (call type arguments)", calls=targs[:5],
+                               note="calls carrying explicit type arguments (can_infer_type_args False) are printed "
+                                    "without them"),
+                          signature="java:explicit-call-type-arguments-not-printed")
 
 
 # ------------------------------------------------------------------ model legs
@@ -296,7 +331,7 @@ def check(run):
     found = set()
     witness_badcond(run)
     nprog, cap, budget = (40, 100, 110) if quick else (1000, 150, 1500)
-    depths = [3, 4, 4, 5, 5, 6] if quick else [4, 5, 5, 6, 6, 7]
+    depths = [3, 4, 4, 5, 5, 6] if quick else [3, 4, 5, 5, 6, 6]   # depth 7 takes minutes per program on a loaded machine
     specs = make_specs(run.rng, nprog, cap, depths)
     model_diffs, direct_bad = run_stream(run, specs, found, "pipeline stream", budget)
     run.cov["programs"] = nprog
